@@ -178,4 +178,79 @@ theorem mini_write_frame_reachable (v4 : Bool) (ops : List GOp) :
     (fun m h => hin m (hin_of c1 m h)) hlen (fun m h => hin m (hin_of c2 m h)) hdisj (by intro id hid; cases hid)
   exact ⟨root, p', hids, hw', hb'⟩
 
+/-- **… and every stream of at least 4096 bytes**: its sectors are none of the mini stream's (two heads of
+the FAT never reach the same sector), so its bytes are as they were -/
+theorem mini_write_regular_frame_reachable (v4 : Bool) (ops : List GOp) :
+    let g0 : G := { p := Phys.create v4, L := fun _ => 0 }
+    WritesInRange g0 ops → MiniBounded g0 ops → (grun g0 ops).p.fat.size ≤ MAXREG + 1 →
+    ∀ e1 ∈ (grun g0 ops).p.starts, ∀ e2 ∈ (grun g0 ops).p.starts,
+    (grun g0 ops).L e1.1 < CUTOFF → 0 < (grun g0 ops).L e1.1 → CUTOFF ≤ (grun g0 ops).L e2.1 → e2.2 ≠ END →
+    ∀ l1 l2, IsChain (grun g0 ops).p.miniFat e1.2 l1 → IsChain (grun g0 ops).p.fat e2.2 l2 →
+    ∀ (off : Nat) (bs : Bytes), off + bs.length ≤ l1.length * 64 →
+    ∃ p', miniChainWrite (bs.length + 2) (grun g0 ops).p l1 off bs = .ok (p', l1) ∧
+      chainBytes p' l2 = chainBytes (grun g0 ops).p l2 := by
+  intro g0 hw hm hb e1 he1 e2 he2 hc1 hp1 hc2 hne2 l1 l2 c1 c2 off bs hlen
+  have ja := lengths_reachable v4 ops hw hm hb
+  have hin_of : ∀ x ∈ l1, x < (grun g0 ops).p.miniFat.size := by
+    intro x hx
+    obtain ⟨w, hw', _⟩ := c1.used x hx
+    exact lt_of_get hw'
+  obtain ⟨t1, et1⟩ := c1.head
+  have hpos : 0 < (grun g0 ops).p.miniFat.size :=
+    Nat.lt_of_le_of_lt (Nat.zero_le _) (hin_of e1.2 (by rw [et1]; simp))
+  obtain ⟨root, hids, hp, ndr, ss, hin⟩ := root_chain_reachable v4 ops hw hm hb hpos
+  -- the root chain as the invariant knows it
+  have hrne : (grun g0 ops).p.rootStart ≠ END := by
+    intro he
+    rw [he, chainIds_END] at hids
+    have : root = [] := (Outcome.ok.inj hids).symm
+    have := hin e1.2 (hin_of e1.2 (by rw [et1]; simp))
+    rw [‹root = []›] at this
+    simp at this
+  have hrm : (grun g0 ops).p.rootStart ∈ heads (grun g0 ops).p (grun g0 ops).L :=
+    List.mem_append_left _ (rs_mem_cont hrne)
+  have hreg : e2.2 ∈ regs (grun g0 ops).p.starts (grun g0 ops).L := by
+    unfold regs
+    exact List.mem_map.mpr ⟨e2, List.mem_filter.mpr ⟨he2, by simp [isRegStart, hc2, hne2]⟩, rfl⟩
+  have hem : e2.2 ∈ heads (grun g0 ops).p (grun g0 ops).L := List.mem_append_right _ hreg
+  have ns := ja.jr.jc.nc.ns
+  have hdiff : (grun g0 ops).p.rootStart ≠ e2.2 := by
+    have hnd := ns.nodup
+    unfold heads at hnd
+    exact (List.nodup_append.mp hnd).2.2 _ (rs_mem_cont hrne) _ hreg
+  obtain ⟨cr, hcr⟩ : ∃ cr, IsChain (grun g0 ops).p.fat (grun g0 ops).p.rootStart cr ∧ cr = root := by
+    obtain ⟨l0, c0, _⟩ := head_on_chain ja.jr.jc.nc hrm
+    have := chainIds_of_isChain hb c0
+    rw [hids] at this
+    exact ⟨l0, c0, (Outcome.ok.inj this).symm⟩
+  have hdisjR : ∀ id ∈ l2, id ∉ root := by
+    intro id h2 h1
+    rw [← hcr.2] at h1
+    exact hdiff (ns.disjoint hrm hem (hcr.1.reach id h1) (c2.reach id h2))
+  obtain ⟨p', hw', _, hb'⟩ := miniChainWrite_frame (grun g0 ops).p l1 [] l2 off bs ss hids hp ndr (isChain_nodup c1)
+    (fun m h => hin m (hin_of m h)) hlen (by intro m h; cases h) (by intro m h; cases h) hdisjR
+  exact ⟨p', hw', hb'⟩
+
+/-- **… and what was written is read back**: in every reachable state, a write inside a small stream's mini
+chain followed by a read of the same range returns the bytes written -/
+theorem mini_write_read_reachable (v4 : Bool) (ops : List GOp) :
+    let g0 : G := { p := Phys.create v4, L := fun _ => 0 }
+    WritesInRange g0 ops → MiniBounded g0 ops → (grun g0 ops).p.fat.size ≤ MAXREG + 1 →
+    ∀ (a : Nat) (l : List Nat), IsChain (grun g0 ops).p.miniFat a l →
+    ∀ (off : Nat) (bs : Bytes), off + bs.length ≤ l.length * 64 →
+    ∃ p', miniChainWrite (bs.length + 2) (grun g0 ops).p l off bs = .ok (p', l) ∧
+      miniChainRead (bs.length + 2) p' l off bs.length [] = .ok bs := by
+  intro g0 hw hm hb a l c off bs hlen
+  have hin_of : ∀ x ∈ l, x < (grun g0 ops).p.miniFat.size := by
+    intro x hx
+    obtain ⟨w, hw', _⟩ := c.used x hx
+    exact lt_of_get hw'
+  obtain ⟨t1, et1⟩ := c.head
+  have hpos : 0 < (grun g0 ops).p.miniFat.size :=
+    Nat.lt_of_le_of_lt (Nat.zero_le _) (hin_of a (by rw [et1]; simp))
+  obtain ⟨root, hids, hp, ndr, ss, hin⟩ := root_chain_reachable v4 ops hw hm hb hpos
+  obtain ⟨p', hw', hr, _⟩ := miniChainWrite_read (grun g0 ops).p l off bs ss hids hp ndr (isChain_nodup c)
+    (fun m h => hin m (hin_of m h)) hlen
+  exact ⟨p', hw', hr⟩
+
 end CfbVerif.Phys
